@@ -13,15 +13,16 @@ import (
 // LTSV. csvq derives the columns of such a table from all records (lib/json ConvertToTableValue, the LTSV and JSONL
 // readers of lib/query), so the header is computed by code that collects keys; the property demands that it - and with
 // it SELECT *, column numbers and every file written from the table - is the same on every run and for every --cpu.
-// ALL shapes within the bound are run: sequences of 2..3 records (thorough 2..4), each a non-empty ordered list of at
-// most 3 distinct keys out of at most 4 (thorough 5) keys, keys named in the order of their first appearance (a, b, ...:
-// shapes that differ only in the names of the keys are one shape). Per shape and format: two single-worker runs and 6
+// ALL shapes within the bound are run: sequences of records, each a non-empty ordered list of distinct keys, keys named in
+// the order of their first appearance (a, b, ...: shapes that differ only in the names of the keys are one shape) -
+// 2 records of at most 4 out of at most 5 keys (372 shapes) and 3 records of at most 2 out of at most 4 keys (187);
+// thorough: 3 records of at most 3 out of 4 keys (2683) and 4 records of at most 2 out of 4 keys (2795) as well. Per shape and format: two single-worker runs and 6
 // (thorough 24) more free runs with 1..3 workers under Go's own map order - the map ranges of lib/json are not
 // instrumented, so their order is whatever the runtime picks -, then all executions with at most one non-default
 // scheduling decision and one deviating instrumented map site. Oracle: every outcome equals the first run. No claim
 // is made about WHICH column order is right: the manual does not say.
 func init() {
-	core.Extend("C12", "family ragged: JSON / JSONL / LTSV tables whose records have different key lists, all shapes of 2..3 records (thorough 2..4) x ordered lists of <= 3 of <= 4 (thorough 5) keys up to renaming, "+
+	core.Extend("C12", "family ragged: JSON / JSONL / LTSV tables whose records have different key lists, all shapes up to renaming of 2 records x ordered lists of <= 4 of <= 5 keys and 3 records x <= 2 of <= 4 keys (thorough: 3 records x <= 3 of 4, 4 records x <= 2 of 4), "+
 		"SELECT * and CREATE TABLE AS SELECT * + COMMIT; 2 + 6 (thorough 24) free runs with 1..3 workers under Go's map order and all executions with at most 1 scheduling decision / 1 deviating map site; oracle: header, rows and file bytes equal in all runs", c12RaggedRun)
 }
 
@@ -150,13 +151,15 @@ func c12RaggedRun(c *core.Ctx) {
 	if !c12FamilyOnly("ragged") {
 		return
 	}
-	maxRec, maxKeys, free := 3, 4, 6
+	// (records, keys at most, keys per record at most)
+	bounds, free := [][3]int{{2, 5, 4}, {3, 4, 2}}, 6
 	if c.Thorough() {
-		maxRec, maxKeys, free = 4, 5, 24
+		bounds, free = [][3]int{{2, 5, 4}, {3, 4, 3}, {4, 4, 2}}, 24
 	}
 	var idx int64
-	for nrec := 2; nrec <= maxRec; nrec++ {
-		shapes := c12RaggedShapes(nrec, maxKeys, 3)
+	for _, b := range bounds {
+		nrec := b[0]
+		shapes := c12RaggedShapes(nrec, b[1], b[2])
 		c.Max(fmt.Sprintf("max_ragged_shapes_of_%d_records", nrec), int64(len(shapes)))
 		for _, shape := range shapes {
 			for _, format := range []string{"json", "jsonl", "ltsv"} {
